@@ -1288,6 +1288,7 @@ func stateAnyCommentStart(s *Scanner, c byte) state {
 	} else if s.index < s.dataSize && s.data[s.index] == '#' { // third #
 		// The annotation state is kept: a block comment may be closed on the same
 		// line, inside the rule object of an inline annotation, which then goes on.
+		s.index++ // skip third #, it must not be taken for the first # of the closer
 		s.step = stateMultiLineComment
 		return scanContinue
 	}
